@@ -39,6 +39,9 @@ type cop struct {
 	Kind string `json:"k"`
 	Peer int    `json:"p,omitempty"`
 	Arg  int    `json:"a,omitempty"`
+	// inc-overlap: the operation on the same peer that the increment's callback starts on another goroutine
+	Sec    string `json:"s,omitempty"`
+	SecArg int    `json:"sa,omitempty"`
 }
 
 type flip struct {
@@ -78,8 +81,9 @@ type gstate struct {
 	prot    map[int][]flip // peer -> history of this goroutine's protection tag
 	ownTag  map[int]int    // peer -> last TagPeer value on this goroutine's tag (old peers only matter)
 	hasTag  map[int]bool
-	cntSum  map[int]int // peer -> sum of increments to the shared tag
-	bumpSum map[int]int // peer -> sum of accepted bumps
+	cntSum  map[int]int    // peer -> sum of increments to the shared tag
+	bumpSum map[int]int    // peer -> sum of accepted bumps
+	overlap map[string]int // statistics: overlapped increments by kind of the second operation
 }
 
 type cworld struct {
@@ -147,6 +151,22 @@ func (cw *cworld) exec(g *gstate, o cop) {
 		k := o.Arg
 		cw.cm.UpsertTag(p, "cnt", func(v int) int { return v + k })
 		g.cntSum[o.Peer] += k
+	case "inc-overlap":
+		// an increment of the shared tag whose callback starts a second operation on the same peer on
+		// another goroutine and yields before it returns (see overlap_test.go). The second operation is
+		// part of this goroutine's program (single-writer rules as for its own operations), so the final
+		// state is still the same for every interleaving.
+		k := o.Arg
+		run, post, fullWait := cw.second(g, o, now)
+		inside, _ := overlapUpsert(cw.cm, p, "cnt", func(v int) int { return v + k }, run, fullWait)
+		g.cntSum[o.Peer] += k
+		post()
+		g.overlap["overlap:inc+"+o.Sec]++
+		if inside {
+			g.overlap["overlap:second-returned-inside-callback:"+o.Sec]++
+		} else {
+			g.overlap["overlap:second-waited-for-the-upsert"]++
+		}
 	case "bump":
 		if cw.dsum.Bump(p, o.Arg) == nil {
 			g.bumpSum[o.Peer] += o.Arg
@@ -170,10 +190,63 @@ func (cw *cworld) exec(g *gstate, o cop) {
 	}
 }
 
+// second builds the operation an overlapped increment starts from inside its callback: run is
+// executed on the helper goroutine, post by the owner after both operations have returned.
+func (cw *cworld) second(g *gstate, o cop, now time.Time) (run, post func(), fullWait bool) {
+	p := peerPool[o.Peer]
+	post = func() {}
+	switch o.Sec {
+	case "tag":
+		return func() { cw.cm.TagPeer(p, g.ptag(), o.SecArg) }, func() { g.ownTag[o.Peer], g.hasTag[o.Peer] = o.SecArg, true }, false
+	case "untag":
+		return func() { cw.cm.UntagPeer(p, g.ptag()) }, func() { g.ownTag[o.Peer], g.hasTag[o.Peer] = 0, true }, false
+	case "bump":
+		var err error
+		return func() { err = cw.dsum.Bump(p, o.SecArg) }, func() {
+			if err == nil {
+				g.bumpSum[o.Peer] += o.SecArg
+			}
+		}, true
+	case "connect":
+		cc := &cconn{c: cw.newConn(o.Peer, o.SecArg)}
+		g.conns = append(g.conns, cc)
+		cc.hist = append(cc.hist, flip{now, true})
+		return func() { cw.nf.Connected(nil, cc.c) }, post, false
+	case "disconnect": // one of this goroutine's connections to the peer, the one most recently connected first
+		for i := len(g.conns) - 1; i >= 0; i-- {
+			if cc := g.conns[i]; cc.c.pi == o.Peer {
+				cc.hist = append(cc.hist, flip{now, false})
+				return func() { cw.nf.Disconnected(nil, cc.c) }, post, false
+			}
+		}
+	case "trim":
+		return func() { cw.cm.TrimOpenConns(context.Background()) }, post, false
+	case "force":
+		return func() {
+			cw.rec.forceActive.Add(1)
+			cw.cm.ForceTrim()
+			cw.rec.forceActive.Add(-1)
+		}, post, false
+	}
+	// "inc" (and a disconnect without a connection to the peer): a second increment of the shared tag
+	k2 := 1 + (o.SecArg%4+4)%4
+	return func() { cw.cm.UpsertTag(p, "cnt", func(v int) int { return v + k2 }) }, func() { g.cntSum[o.Peer] += k2 }, false
+}
+
+var copSeconds = func() []string {
+	var out []string
+	for _, o := range []weighted{{"inc", 4}, {"tag", 3}, {"untag", 1}, {"bump", 1}, {"connect", 1}, {"disconnect", 3}, {"trim", 2}, {"force", 1}} {
+		for i := 0; i < o.w; i++ {
+			out = append(out, o.name)
+		}
+	}
+	return out
+}()
+
 var copKinds = func() []string {
 	var out []string
 	for _, o := range []weighted{{"sleep", 6}, {"connect", 8}, {"reconnect", 2}, {"disconnect", 4}, {"reap", 3}, {"tag", 3}, {"untag", 1},
-		{"inc", 4}, {"bump", 3}, {"protect", 3}, {"unprotect", 3}, {"trim", 5}, {"force", 2}, {"read", 1}} {
+		{"inc", 4}, {"inc-overlap", 4}, {"bump", 3}, {"protect", 3}, {"unprotect", 3}, {"trim", 5}, {"force", 2}, {"read", 1}} {
 		for i := 0; i < o.w; i++ {
 			out = append(out, o.name)
 		}
@@ -213,6 +286,17 @@ func TestConcurrent(t *testing.T) {
 					o.Arg = rapid.IntRange(-3, 9).Draw(rt, "val")
 				case "inc", "bump":
 					o.Arg = rapid.IntRange(1, 4).Draw(rt, "k")
+				case "inc-overlap":
+					o.Arg = rapid.IntRange(1, 4).Draw(rt, "k")
+					o.Sec = pick(rt, "second", copSeconds)
+					switch o.Sec {
+					case "tag":
+						o.SecArg = rapid.IntRange(-3, 9).Draw(rt, "val")
+					case "inc", "bump":
+						o.SecArg = rapid.IntRange(1, 4).Draw(rt, "k2")
+					case "connect":
+						o.SecArg = rapid.IntRange(0, 11).Draw(rt, "arg")
+					}
 				case "trim", "force", "reap":
 					o.Peer = 0
 				}
@@ -239,7 +323,7 @@ func TestConcurrent(t *testing.T) {
 				rt.Fatalf("RegisterDecayingTag: %v", err)
 			}
 			mk := func(id int) *gstate {
-				return &gstate{id: id, prot: map[int][]flip{}, ownTag: map[int]int{}, hasTag: map[int]bool{}, cntSum: map[int]int{}, bumpSum: map[int]int{}}
+				return &gstate{id: id, prot: map[int][]flip{}, ownTag: map[int]int{}, hasTag: map[int]bool{}, cntSum: map[int]int{}, bumpSum: map[int]int{}, overlap: map[string]int{}}
 			}
 			main := mk(99) // the set-up phase is the history of one more "goroutine"
 			for g := 0; g < ng; g++ {
@@ -281,6 +365,12 @@ func TestConcurrent(t *testing.T) {
 			endB := time.Now()
 			if endB.Sub(startB) >= cfg.grace {
 				rt.Fatalf("harness: phase B lasted %v, not shorter than the grace period", endB.Sub(startB))
+			}
+
+			for _, g := range cw.gs {
+				for l := range g.overlap {
+					labels[l] = true
+				}
 			}
 
 			// ---- oracle over the recorded history ----
